@@ -2028,7 +2028,7 @@ func main() {
 	if run.Thorough() {
 		exhaustive()
 	}
-	n := run.Scale(1000, 10000)
+	n := run.Scale(1000, 8000)
 	if os.Getenv("C09_ONLY_EXHAUSTIVE") != "" { // manual testing aid
 		n = 0
 	}
